@@ -1,5 +1,10 @@
 package main
 
+import (
+	"fmt"
+	"go/ast"
+)
+
 // Guard tables for block acceptance (C06) and transaction admission (C07).
 // Every symbol below is re-resolved against the loaded program on each run; a guard whose
 // condition disappears, stops gating, or is conjoined with an escape hatch is reported.
@@ -111,6 +116,57 @@ func ruleAdmitDominators(c *Ctx) {
 	// fee exactness: witnesses are verified with exactly what is left of the network fee after the size/attribute part
 	argMentions(c, "verifyAndPoolTx.witness-budget", [3]string{"pkg/core", "Blockchain", "verifyAndPoolTx"}, symBC+"verifyTxWitnesses", 3,
 		fldTxNetFee, symTxSize, symBC+"FeePerByte", symBC+"CalculateAttributesFee")
+	// the on-chain conflict lookup examines every signer: inside the per-signer loop only the "has conflicts" error may leave
+	if fd := c.P.Func("pkg/core/dao", "Simple", "HasTransaction"); fd == nil {
+		c.Lost("HasTransaction.anchor", "dao.(*Simple).HasTransaction not found")
+	} else {
+		f := c.P.NewFuncCFG(fd)
+		var loops []Loop
+		for _, l := range f.Loops() {
+			if l.X != nil && f.Mentions(l.X, nil)["param:signers"] {
+				loops = append(loops, l)
+			}
+		}
+		if len(loops) != 1 {
+			c.Lost("HasTransaction.signers-loop", fmt.Sprintf("expected one loop over the signers, found %d", len(loops)))
+		} else {
+			bad := false
+			nret := 0
+			for _, r := range f.Returns() {
+				if !containsNode(loops[0].Stmt, r.node) {
+					continue
+				}
+				nret++
+				if !f.isErrorExit(r.blk, r.node.(*ast.ReturnStmt)) {
+					bad = true
+					c.Fail("HasTransaction.signers-loop.complete", c.P.Pos(r.node.Pos()), "HasTransaction can return success from inside the per-signer loop: conflict records of the remaining signers are not examined")
+				}
+			}
+			if !bad {
+				c.OK("HasTransaction.signers-loop.complete", c.P.Pos(loops[0].Stmt.Pos()), fmt.Sprintf("the %d exit(s) inside the per-signer loop all report a conflict; success is returned only after every signer was examined", nret))
+			}
+		}
+	}
+	// fee exactness for multisignature witnesses: the calculator prices the very opcode the script emitter produces
+	// for the key/signature count (emit.Int picks PUSHn or PUSHINT8.. depending on the value)
+	if fd := c.P.Func("pkg/core/fee", "", "calculateMultisig"); fd == nil {
+		c.Lost("fee.calculateMultisig.anchor", "fee.calculateMultisig not found")
+	} else {
+		f := c.P.NewFuncCFG(fd)
+		found := false
+		for _, s := range f.CallSites("pkg/core/fee.Opcode") {
+			for _, a := range s.call.Args[1:] {
+				if f.Mentions(a, s.blk)["pkg/io.(*BufBinWriter).Bytes"] && len(f.CallSites("pkg/vm/emit.Int")) > 0 {
+					found = true
+				}
+			}
+		}
+		if found {
+			c.OK("fee.calculateMultisig.count-opcode", c.P.Pos(fd.Decl.Pos()), "the count-push opcode priced by the fee calculator is obtained from emit.Int, the emitter the multisig script builder uses")
+		} else {
+			c.Fail("fee.calculateMultisig.count-opcode", c.P.Pos(fd.Decl.Pos()), "fee.calculateMultisig no longer derives the count-push opcode from emit.Int: for counts the emitter encodes differently (>16) the calculated fee and the verification cost disagree")
+		}
+	}
 	// pooling from the network goes through the off-chain variant (system fee cap) everywhere outside block acceptance
 	c.Floor("guards", len(c.Obls), 11)
 }
